@@ -111,3 +111,18 @@ def check_seed_int_equals_key(n: int) -> bool:
     b2 = gs.EngineBuilder(fj.KeyT(("seed", n)), 2)
     e, j, p = b1._engine_key.t, b1._jitter_key.t, b1._prng_key.t
     return e == b2._engine_key.t and j == b2._jitter_key.t and p == b2._prng_key.t and e != j and e != p and j != p
+
+
+def check_set_duration(warmup: int, q: int, tp: int, term: int, tw: int) -> bool:
+    """
+    EngineBuilder.set_duration hands its arguments to stan_epochs unchanged (same epochs as calling it directly)
+    pre: 1 <= term <= 200 and 20 <= warmup <= 2000 and 75 + term + 25 <= warmup
+    pre: 1 <= tw <= 25 and tw <= term and 1 <= q <= 50 and 1 <= tp <= 4
+    post: _ == True
+    """
+    from liesel.goose.warmup import stan_epochs
+    b = gs.EngineBuilder(seed=1, num_chains=2)
+    b.set_duration(warmup, q * tp, term, tp, tw)
+    got = [(int(e.type), e.duration, e.thinning) for e in b._epochs._configs]
+    want = [(int(e.type), e.duration, e.thinning) for e in stan_epochs(warmup, q * tp, term_duration=term, thinning_posterior=tp, thinning_warmup=tw)]
+    return got == want and got[-1] == (4, q * tp, tp) and got[1][2] == tw and got[-2] == (1, term, tw)
